@@ -25,7 +25,8 @@ EXPLANATION = (
     'batches preserves their order (no regrouping by task across '
     'interleaved nodes); R-C09.7 every mapping attribute of the graph classes '
     'is filled and probed with the same kind of key (app object vs app label '
-    'vs node key).')
+    'vs node key); R-C09.8 the applied evolutions / migrations that prune '
+    'the graph are read from the database being evolved.')
 NOT_DECIDED = (
     'Correctness of the topological sort on all graphs, and the behaviour '
     'of Django\'s own migration planner.')
@@ -482,7 +483,63 @@ def r7_mapping_key_kinds(ctx):
     ctx.floor('mapping attributes of the graph classes', n, 2)
 
 
+def r8_applied_from_evolved_database(ctx):
+    """"Requirements on already-applied units are ignored": the applied sets
+    must be those of the database being evolved."""
+    ctx.rule('R-C09.8')
+    p = ctx.program
+    f = p.func('evolve.evolve_app_task',
+               'EvolveAppTask._build_evolutions_graph')
+    calls = [c for c in walk_no_nested(f.node)
+             if isinstance(c, ast.Call) and
+             call_name(c) == 'get_applied_evolutions']
+    marks = [c for c in walk_no_nested(f.node)
+             if isinstance(c, ast.Call) and
+             call_name(c) == 'mark_evolutions_applied']
+    ctx.floor('mark_evolutions_applied calls', len(marks), 1)
+    if not calls:
+        ctx.finding(f, None, 'the graph is no longer pruned by the applied '
+                    'evolutions of each app', key='no-applied-lookup')
+    for c in calls:
+        db = kwarg(c, 'database') or (c.args[1] if len(c.args) > 1 else None)
+        src = unparse(db) if db is not None else None
+        ok = False
+        if db is not None:
+            if 'database_name' in src:
+                ok = True
+            elif isinstance(db, ast.Name):
+                for a in walk_no_nested(f.node):
+                    if isinstance(a, ast.Assign) and any(
+                            isinstance(t, ast.Name) and t.id == db.id
+                            for t in a.targets) and \
+                            'database_name' in unparse(a.value):
+                        ok = True
+        if ok:
+            ctx.ok(f, 'applied evolutions are read from the evolver\'s '
+                   'database', c)
+        else:
+            ctx.finding(f, c, 'get_applied_evolutions(%s) does not name the '
+                        'database being evolved: on a second database the '
+                        'graph is pruned by the default database\'s history '
+                        '(pending units lose their ordering edges, applied '
+                        'ones keep unmeetable ones)' % unparse(c)[len(
+                            'get_applied_evolutions('):-1],
+                        key='applied-from-default-db')
+    bm = p.func('evolve.evolve_app_task',
+                'EvolveAppTask._build_migrations_info')
+    ml = [c for c in walk_no_nested(bm.node) if isinstance(c, ast.Call) and
+          call_name(c) == 'from_database']
+    if ml and all('evolver.connection' in unparse(c) for c in ml):
+        ctx.ok(bm, 'applied migrations are read through the evolver\'s '
+               'connection', ml[0])
+    else:
+        ctx.finding(bm, ml[0] if ml else None, 'applied migrations are not '
+                    'read from the evolver\'s connection',
+                    key='migrations-from-other-db')
+
+
 def run(ctx):
+    r8_applied_from_evolved_database(ctx)
     r7_mapping_key_kinds(ctx)
     r1_edge_direction(ctx)
     r2_key_vocabulary(ctx)
